@@ -121,57 +121,156 @@ fn swap_join_condition(cond: &BoundExpression) -> BoundExpression {
     }
 }
 
-/// Shifts column indices by offset.
-fn shift_columns(expr: &BoundExpression, offset: i32) -> Option<BoundExpression> {
-    match expr {
-        BoundExpression::ColumnBinding(c) => {
-            let new_idx = c.column_idx as i32 + offset;
-            if new_idx < 0 {
-                None
-            } else {
-                Some(BoundExpression::ColumnBinding(Binding {
-                    column_idx: new_idx as usize,
-                    ..*c
-                }))
-            }
-        }
+/// Rebuilds `expr` with every column index `i` replaced by `f(i)`; `None` as soon as `f` rejects an index.
+/// Walks every expression form the evaluator accepts (sub-queries keep their own scope and are not entered).
+fn map_columns(
+    expr: &BoundExpression,
+    f: &dyn Fn(usize) -> Option<usize>,
+) -> Option<BoundExpression> {
+    let many = |es: &[BoundExpression]| -> Option<Vec<BoundExpression>> {
+        es.iter().map(|e| map_columns(e, f)).collect()
+    };
+    let boxed = |e: &BoundExpression| -> Option<Box<BoundExpression>> {
+        map_columns(e, f).map(Box::new)
+    };
+    Some(match expr {
+        BoundExpression::ColumnBinding(c) => BoundExpression::ColumnBinding(Binding {
+            column_idx: f(c.column_idx)?,
+            ..*c
+        }),
         BoundExpression::BinaryOp {
             left,
             op,
             right,
             result_type,
-        } => Some(BoundExpression::BinaryOp {
-            left: Box::new(shift_columns(left, offset)?),
+        } => BoundExpression::BinaryOp {
+            left: boxed(left)?,
             op: *op,
-            right: Box::new(shift_columns(right, offset)?),
+            right: boxed(right)?,
             result_type: *result_type,
-        }),
-        BoundExpression::Literal { .. } => Some(expr.clone()),
-        _ => Some(expr.clone()),
-    }
+        },
+        BoundExpression::UnaryOp {
+            op,
+            expr,
+            result_type,
+        } => BoundExpression::UnaryOp {
+            op: *op,
+            expr: boxed(expr)?,
+            result_type: *result_type,
+        },
+        BoundExpression::IsNull { expr, negated } => BoundExpression::IsNull {
+            expr: boxed(expr)?,
+            negated: *negated,
+        },
+        BoundExpression::Between {
+            expr,
+            low,
+            high,
+            negated,
+        } => BoundExpression::Between {
+            expr: boxed(expr)?,
+            low: boxed(low)?,
+            high: boxed(high)?,
+            negated: *negated,
+        },
+        BoundExpression::InList {
+            expr,
+            list,
+            negated,
+        } => BoundExpression::InList {
+            expr: boxed(expr)?,
+            list: many(list)?,
+            negated: *negated,
+        },
+        BoundExpression::Function {
+            func,
+            args,
+            distinct,
+            return_type,
+        } => BoundExpression::Function {
+            func: func.clone(),
+            args: many(args)?,
+            distinct: *distinct,
+            return_type: *return_type,
+        },
+        BoundExpression::Aggregate {
+            func,
+            arg,
+            distinct,
+            return_type,
+        } => BoundExpression::Aggregate {
+            func: *func,
+            arg: match arg {
+                Some(a) => Some(boxed(a)?),
+                None => None,
+            },
+            distinct: *distinct,
+            return_type: *return_type,
+        },
+        BoundExpression::Case {
+            operand,
+            when_then,
+            else_expr,
+            result_type,
+        } => BoundExpression::Case {
+            operand: match operand {
+                Some(o) => Some(boxed(o)?),
+                None => None,
+            },
+            when_then: when_then
+                .iter()
+                .map(|(c, r)| Some((map_columns(c, f)?, map_columns(r, f)?)))
+                .collect::<Option<Vec<_>>>()?,
+            else_expr: match else_expr {
+                Some(e) => Some(boxed(e)?),
+                None => None,
+            },
+            result_type: *result_type,
+        },
+        BoundExpression::InSubquery {
+            expr,
+            query,
+            negated,
+        } => BoundExpression::InSubquery {
+            expr: boxed(expr)?,
+            query: query.clone(),
+            negated: *negated,
+        },
+        BoundExpression::Literal { .. }
+        | BoundExpression::Subquery { .. }
+        | BoundExpression::Exists { .. }
+        | BoundExpression::Star => expr.clone(),
+    })
+}
+
+/// Does any column index of `expr` satisfy `pred`?
+fn any_column(expr: &BoundExpression, pred: &dyn Fn(usize) -> bool) -> bool {
+    let found = std::cell::Cell::new(false);
+    let _ = map_columns(expr, &|i| {
+        if pred(i) {
+            found.set(true);
+        }
+        Some(i)
+    });
+    found.get()
+}
+
+/// Shifts column indices by offset.
+fn shift_columns(expr: &BoundExpression, offset: i32) -> Option<BoundExpression> {
+    map_columns(expr, &|i| {
+        let new_idx = i as i32 + offset;
+        if new_idx < 0 { None } else { Some(new_idx as usize) }
+    })
 }
 
 /// Checks if all columns in expr have index >= min.
 fn all_columns_ge(expr: &BoundExpression, min: usize) -> bool {
-    match expr {
-        BoundExpression::ColumnBinding(c) => c.column_idx >= min,
-        BoundExpression::BinaryOp { left, right, .. } => {
-            all_columns_ge(left, min) && all_columns_ge(right, min)
-        }
-        BoundExpression::Literal { .. } => true,
-        _ => true,
-    }
+    !any_column(expr, &|i| i < min)
 }
 
 /// Checks if any column in expr is in range [start, end).
 fn any_column_in_range(expr: &BoundExpression, start: usize, end: usize) -> bool {
-    match expr {
-        BoundExpression::ColumnBinding(c) => c.column_idx >= start && c.column_idx < end,
-        BoundExpression::BinaryOp { left, right, .. } => {
-            any_column_in_range(left, start, end) || any_column_in_range(right, start, end)
-        }
-        _ => false,
-    }
+    any_column(expr, &|i| i >= start && i < end)
 }
 
 /// Combines predicates with AND.
@@ -303,76 +402,15 @@ fn classify_predicates(
 
 /// Checks if expression uses left/right columns.
 fn check_column_usage(expr: &BoundExpression, left_cols: usize) -> (bool, bool) {
-    match expr {
-        BoundExpression::ColumnBinding(c) => {
-            if c.column_idx < left_cols {
-                (true, false)
-            } else {
-                (false, true)
-            }
-        }
-        BoundExpression::BinaryOp { left, right, .. } => {
-            let (l1, r1) = check_column_usage(left, left_cols);
-            let (l2, r2) = check_column_usage(right, left_cols);
-            (l1 || l2, r1 || r2)
-        }
-        BoundExpression::UnaryOp { expr, .. } | BoundExpression::IsNull { expr, .. } => {
-            check_column_usage(expr, left_cols)
-        }
-        BoundExpression::InList { expr, list, .. } => {
-            let (mut l, mut r) = check_column_usage(expr, left_cols);
-            for i in list {
-                let (l2, r2) = check_column_usage(i, left_cols);
-                l = l || l2;
-                r = r || r2;
-            }
-            (l, r)
-        }
-        BoundExpression::Between {
-            expr, low, high, ..
-        } => {
-            let (l1, r1) = check_column_usage(expr, left_cols);
-            let (l2, r2) = check_column_usage(low, left_cols);
-            let (l3, r3) = check_column_usage(high, left_cols);
-            (l1 || l2 || l3, r1 || r2 || r3)
-        }
-        _ => (false, false),
-    }
+    (
+        any_column(expr, &|i| i < left_cols),
+        any_column(expr, &|i| i >= left_cols),
+    )
 }
 
 /// Rewrites column references using a mapping.
 fn rewrite_with_mapping(expr: &BoundExpression, mapping: &[usize]) -> BoundExpression {
-    match expr {
-        BoundExpression::ColumnBinding(c) => BoundExpression::ColumnBinding(Binding {
-            column_idx: mapping.get(c.column_idx).copied().unwrap_or(c.column_idx),
-            ..*c
-        }),
-        BoundExpression::BinaryOp {
-            left,
-            op,
-            right,
-            result_type,
-        } => BoundExpression::BinaryOp {
-            left: Box::new(rewrite_with_mapping(left, mapping)),
-            op: *op,
-            right: Box::new(rewrite_with_mapping(right, mapping)),
-            result_type: *result_type,
-        },
-        BoundExpression::UnaryOp {
-            op,
-            expr,
-            result_type,
-        } => BoundExpression::UnaryOp {
-            op: *op,
-            expr: Box::new(rewrite_with_mapping(expr, mapping)),
-            result_type: *result_type,
-        },
-        BoundExpression::IsNull { expr, negated } => BoundExpression::IsNull {
-            expr: Box::new(rewrite_with_mapping(expr, mapping)),
-            negated: *negated,
-        },
-        _ => expr.clone(),
-    }
+    map_columns(expr, &|i| Some(mapping.get(i).copied().unwrap_or(i))).unwrap_or_else(|| expr.clone())
 }
 
 /// Creates a column reference expression.
